@@ -39,6 +39,7 @@ inductive Why
   | ckx | skx | certs | fmt | nodec | sigkey | verify | enckey | noke | lib
   | badmac | overflow | short | version | first | unexpected | toolong | bounds
   | stuck   -- a loop of the model made no progress (proved unreachable)
+  | timeout -- the socket had nothing more (not a permanent error)
   deriving DecidableEq, Repr, Inhabited
 
 def Why.name : Why → String
@@ -46,7 +47,7 @@ def Why.name : Why → String
   | .sigkey => "sigkey" | .verify => "verify" | .enckey => "enckey" | .noke => "noke" | .lib => "lib"
   | .badmac => "badmac" | .overflow => "overflow" | .short => "short" | .version => "version"
   | .first => "first" | .unexpected => "unexpected" | .toolong => "toolong" | .bounds => "bounds"
-  | .stuck => "stuck"
+  | .stuck => "stuck" | .timeout => "timeout"
 
 /-- outcome of a modelled Go function: value, returned error, or run-time panic -/
 inductive Outcome (α : Type)
@@ -473,8 +474,10 @@ structure SplitD where
   deriving Repr
 
 /-- dtlcp `readRecordOrCCS`: the header slicing of one record out of the datagram buffer
-(`haveVers`/`vers` as in the connection). -/
-def splitD (hdrLen maxCiphertext : Nat) (haveVers : Bool) (vers : Nat) (buf : Bytes) : Outcome SplitD := do
+(`haveVers`/`vers` as in the connection; `firstRecord` = `c.handBuf.Len() == 0`: only the very
+first record must be an alert or a handshake record). -/
+def splitD (hdrLen maxCiphertext : Nat) (haveVers : Bool) (vers : Nat) (buf : Bytes) (firstRecord : Bool := true) :
+    Outcome SplitD := do
   if buf.length < hdrLen then .err .short else
   let hdr ← sliceTo buf hdrLen
   let t ← idx hdr 0
@@ -486,7 +489,7 @@ def splitD (hdrLen maxCiphertext : Nat) (haveVers : Bool) (vers : Nat) (buf : By
   let v := be16 v1 v2
   let n := be16 n1 n2
   if haveVers && v != vers then .err .version else
-  if !haveVers && ((t != 21 && t != 22) || v ≥ 0x1000) then .err .first else
+  if !haveVers && ((firstRecord && t != 21 && t != 22) || v ≥ 0x1000) then .err .first else
   if n > maxCiphertext then .err .overflow else
   if hdrLen + n > buf.length then .err .bounds else
   let record ← sliceTo buf (hdrLen + n)
